@@ -237,6 +237,137 @@ theorem correlate_eq_spec (c : Cfg) (hist : List Arr) (s : St) (key : Nat) (t : 
   have := hfresh src hs e he (by simpa using hp)
   simp [this]
 
+/-! ### the same invariant with the cap: removed events are expirable *or cap-evicted* -/
+
+theorem Kept.drop {exp : Ev → Prop} {b h : List Ev} (k : Kept exp b h) :
+    ∀ n, (∀ e ∈ b.take n, exp e) → Kept exp (b.drop n) h := by
+  induction k with
+  | nil => intro n _; simpa using Kept.nil
+  | keep e _ ih =>
+    intro n hn
+    cases n with
+    | zero => simpa using Kept.keep e (by simpa using ih 0 (by simp))
+    | succ m =>
+      simp only [List.drop_succ_cons]
+      refine .skip e (hn e (by simp)) (ih m ?_)
+      intro x hx
+      exact hn x (by simp [hx])
+  | skip e he _ ih => intro n hn; exact .skip e he (ih n hn)
+
+def InvE (c : Cfg) (hist : List Arr) (ev : List Ev) (s : St) : Prop :=
+  ∀ src ∈ c.sources, ∀ key,
+    Kept (fun e => expirable c.window hist e = true ∨ e ∈ ev) (get s.bufs (src, key)) (histOf hist src key)
+
+theorem invE_init (c : Cfg) : InvE c [] [] St.init := by
+  intro src _ key
+  simp only [St.init, get, List.lookup_nil, Option.getD_none, histOf, List.filter_nil, List.map_nil]
+  exact .nil
+
+theorem cleanup_keptE (c : Cfg) (hist : List Arr) (ev ev' : List Ev) (s : St) (a : Arr)
+    (hinv : InvE c hist ev s) (hsub : ∀ e ∈ ev, e ∈ ev') :
+    ∀ src ∈ c.sources, ∀ key,
+      Kept (fun e => expirable c.window (hist ++ [a]) e = true ∨ e ∈ ev')
+        (get (cleanupWith expireVec c s a.ev.ts).bufs (src, key)) (histOf hist src key) := by
+  have hmono : ∀ src ∈ c.sources, ∀ key, Kept (fun e => expirable c.window (hist ++ [a]) e = true ∨ e ∈ ev')
+      (get s.bufs (src, key)) (histOf hist src key) :=
+    fun src hs key => (hinv src hs key).mono (fun e he => by
+      rcases he with he | he
+      · exact Or.inl (expirable_mono _ _ _ _ he)
+      · exact Or.inr (hsub e he))
+  unfold cleanupWith
+  by_cases hg : gated c s a.ev.ts = true
+  · simp only [hg, if_true]; exact hmono
+  · simp only [hg]
+    intro src hs key
+    let H : SK → List Ev := fun sk => if sk.1 ∈ c.sources then histOf hist sk.1 sk.2 else get s.bufs sk
+    have hb : ∀ sk, Kept (fun e => expirable c.window (hist ++ [a]) e = true ∨ e ∈ ev') (get s.bufs sk) (H sk) := by
+      intro sk
+      by_cases hk : sk.1 ∈ c.sources
+      · simp only [H, hk, if_true]; exact hmono sk.1 hk sk.2
+      · simp only [H, hk, if_false]; exact Kept.refl _ _
+    have := fold_expire_kept (fun e => expirable c.window (hist ++ [a]) e = true ∨ e ∈ ev') H (a.ev.ts - c.window)
+      (fun e he => Or.inl (expirable_last _ _ _ _ (by simpa using he)))
+      (s.queue.filter fun q => decide (q.1 ≤ a.ev.ts)) s.bufs hb (src, key)
+    simpa [H, hs, gcFold] using this
+
+theorem add_invE (c : Cfg) (hist : List Arr) (ev : List Ev) (s : St) (a : Arr) (hinv : InvE c hist ev s) :
+    InvE c (hist ++ [a]) (ev ++ evictedAt c s a) (addEvent c s a).1 := by
+  intro src hs key
+  have hk := cleanup_keptE c hist ev (ev ++ evictedAt c s a) s a hinv (fun e he => List.mem_append_left _ he)
+  unfold addEvent addWith
+  simp only
+  rw [histOf_append]
+  by_cases hsrc : a.src ∈ c.sources
+  · simp only [hsrc, if_true]
+    rw [get_set]
+    by_cases hm : a.src = src ∧ a.key = key
+    · obtain ⟨h1, h2⟩ := hm
+      subst h1; subst h2
+      simp only [if_true, and_self]
+      unfold capEvict
+      refine ((hk a.src hs a.key).drop _ ?_).snoc a.ev
+      intro e he
+      refine Or.inr (List.mem_append_right _ ?_)
+      simp only [evictedAt, hsrc, if_true]
+      exact he
+    · have hne : (src, key) ≠ (a.src, a.key) := by
+        intro he
+        injection he with e1 e2
+        exact hm ⟨e1.symm, e2.symm⟩
+      simp only [hne, if_false, hm]
+      exact hk src hs key
+  · simp only [hsrc, if_false]
+    have hm : ¬ (a.src = src ∧ a.key = key) := fun h => hsrc (h.1 ▸ hs)
+    simp only [hm, if_false]
+    exact hk src hs key
+
+theorem run_invE (c : Cfg) : ∀ (ops : List Arr) (hist : List Arr) (ev : List Ev) (s : St),
+    InvE c hist ev s → InvE c (hist ++ ops) (ev ++ evictedBy c s ops) (run c s ops)
+  | [], hist, ev, s, h => by simpa [run, runWith, evictedBy] using h
+  | a :: rest, hist, ev, s, h => by
+    have h1 := add_invE c hist ev s a h
+    have h2 := run_invE c rest (hist ++ [a]) (ev ++ evictedAt c s a) (addEvent c s a).1 h1
+    simpa [run, runWith, addEvent, evictedBy, List.append_assoc] using h2
+
+theorem run_snoc (c : Cfg) : ∀ (ops : List Arr) (s : St) (a : Arr),
+    run c s (ops ++ [a]) = (addEvent c (run c s ops) a).1
+  | [], s, a => by simp [run, runWith, addEvent]
+  | b :: rest, s, a => by
+    have := run_snoc c rest (addEvent c s b).1 a
+    simpa [run, runWith, addEvent] using this
+
+theorem correlate_eq_specE (c : Cfg) (hist : List Arr) (ev : List Ev) (s : St) (key : Nat) (t : Int)
+    (hinv : InvE c hist ev s)
+    (hfresh : ∀ src ∈ c.sources, ∀ e ∈ histOf hist src key, e.ts ≥ t - c.window →
+      expirable c.window hist e = false ∧ e ∉ ev) :
+    correlate c s.bufs key t = specJoin c hist key t := by
+  unfold correlate specJoin
+  apply mapM_option_congr
+  intro src hs
+  rw [lastValid_eq]
+  unfold specPick
+  rw [(hinv src hs key).filter_eq (fun e => decide (e.ts ≥ t - c.window))]
+  intro e he hp
+  have := hfresh src hs e he (by simpa using hp)
+  simp [this.1, this.2]
+
+theorem evictedBy_nil_of_noCapHit (c : Cfg) : ∀ (ops : List Arr) (s : St),
+    noCapHit c s ops = true → evictedBy c s ops = []
+  | [], _, _ => rfl
+  | a :: rest, s, h => by
+    simp only [noCapHit, Bool.and_eq_true, Bool.not_eq_true'] at h
+    have ih := evictedBy_nil_of_noCapHit c rest (addEvent c s a).1 h.2
+    simp only [evictedBy, ih, List.append_nil]
+    unfold evictedAt
+    by_cases hsrc : a.src ∈ c.sources
+    · have := h.1
+      unfold capHit at this
+      simp only [hsrc, decide_true, Bool.true_and, decide_eq_false_iff_not] at this
+      simp only [hsrc, if_true]
+      have hz : (get (cleanupWith expireVec c s a.ev.ts).bufs (a.src, a.key)).length + 1 - c.maxPerKey = 0 := by omega
+      rw [hz]; rfl
+    · simp [hsrc]
+
 /-! ### the heap's pop order cannot matter -/
 
 def iter (f : List Ev → List Ev) : Nat → List Ev → List Ev
